@@ -597,7 +597,7 @@ def interleave(rng, core, lo=2):
     return out
 
 
-def chain_block(rng, slot, n):
+def chain_block(rng, slot, n, idx):
     """the SAME stream position on the SAME unchanged object, three times (re-seeding with one seed; sampling is read-only), with start chains
     A, B, A of equal shape and different content: results 1 and 3 are the same operation at the same stream position (model-equal, must be
     bit-equal), result 2 is a DIFFERENT operation although (k, num_samples, row count) agree — the content of `initial_state` is part of the
@@ -608,7 +608,7 @@ def chain_block(rng, slot, n):
     B = [list(r) for r in A]
     i, j = rng.randrange(rows), rng.randrange(n)
     B[i][j] = 1.0 - B[i][j]
-    k, num = rng.choice([0, 0, 1, 2]), rng.randint(1, 5)
+    k, num = idx % 3, rng.randint(1, 5)  # k = 0: the result IS the start chains; k > 0: a function of them and of the stream
     cls = rng.choice(["sample", "sample", "obsSample"])
     out = []
     for init, ow in ((A, False), (B, False), (A, False), (A, True)):
@@ -662,7 +662,7 @@ def gen_history(rng, idx):
         core[at:at] = [seed_op(rng), probe(min(cons), cons[min(cons)]["n"])]
     if idx % 5 == 3:
         core.insert(rng.randint(3, len(core)), {"t": "burn", "m": rng.randint(1, 9)})
-    core += chain_block(rng, min(cons), cons[min(cons)]["n"])
+    core += chain_block(rng, min(cons), cons[min(cons)]["n"], idx)
     for slot in sorted(cons):
         core.append(probe(slot, cons[slot]["n"]))
     runs = []
